@@ -90,7 +90,7 @@ func timeClass(c int) time.Time {
 	case 1:
 		return time.Date(2024, 2, 29, 23, 59, 59, 999999999, time.UTC)
 	case 2:
-		return time.Date(1999, 12, 31, 1, 2, 3, 4, time.FixedZone("x", -(3*3600 + 30*60)))
+		return time.Date(1999, 12, 31, 1, 2, 3, 4, time.FixedZone("x", -(3*3600+30*60)))
 	case 3:
 		return time.Now() // carries a monotonic clock reading
 	case 4:
@@ -98,7 +98,7 @@ func timeClass(c int) time.Time {
 	case 6:
 		return time.Date(1936, 5, 1, 12, 0, 0, 5, time.FixedZone("AMT", 19*60+32)) // offset with a seconds part: 16-byte binary form
 	case 7:
-		return time.Date(1971, 1, 6, 7, 8, 9, 10, time.FixedZone("MMT", -(44*60 + 30))) // negative, seconds part
+		return time.Date(1971, 1, 6, 7, 8, 9, 10, time.FixedZone("MMT", -(44*60+30))) // negative, seconds part
 	default:
 		return time.Unix(0, 0).UTC()
 	}
@@ -313,54 +313,57 @@ func main() {
 			}
 		}()
 	}
-	// (d) codec IDs
-	func() {
-		defer guard("codecid", "custom-reopen")
-		dir, _ := os.MkdirTemp("", "verif-codec-")
-		defer os.RemoveAll(dir)
-		cc := custom{id: wal.FirstExternalCodecID + 1234}
-		w, err := wal.Open(dir, wal.WithCodec(cc), wal.WithSegmentSize(4096), wal.WithLogger(lg))
-		if err != nil {
-			emit("codecid", "custom-open", false, err.Error())
-			return
-		}
-		l := build(Case{Idx: 1, Term: 3, Typ: 1, Data: 3, Ext: 2, Time: 1})
-		l.Index = 1
-		if err := w.StoreLogs([]*raft.Log{l}); err != nil {
-			emit("codecid", "custom-store", false, err.Error())
-			return
-		}
-		w.Close()
-		w, err = wal.Open(dir, wal.WithCodec(cc), wal.WithSegmentSize(4096), wal.WithLogger(lg))
-		if err != nil {
-			emit("codecid", "custom-reopen", false, "a WAL created with a custom codec does not reopen with it: "+err.Error())
-		} else {
-			var got raft.Log
-			if err := w.GetLog(1, &got); err != nil {
-				emit("codecid", "custom-reopen", false, "GetLog after reopen: "+err.Error())
-			} else if d := equalLog(l, &got); d != "" {
-				emit("codecid", "custom-reopen", false, d)
-			} else {
-				emit("codecid", "custom-reopen", true, "")
+	// (d) codec IDs: the first external ID itself, one in the middle, the largest
+	for _, cid := range []uint64{wal.FirstExternalCodecID, wal.FirstExternalCodecID + 1234, math.MaxUint64} {
+		cid := cid
+		func() {
+			defer guard("codecid", "custom-reopen")
+			dir, _ := os.MkdirTemp("", "verif-codec-")
+			defer os.RemoveAll(dir)
+			cc := custom{id: cid}
+			w, err := wal.Open(dir, wal.WithCodec(cc), wal.WithSegmentSize(4096), wal.WithLogger(lg))
+			if err != nil {
+				emit("codecid", "custom-open", false, err.Error())
+				return
+			}
+			l := build(Case{Idx: 1, Term: 3, Typ: 1, Data: 3, Ext: 2, Time: 1})
+			l.Index = 1
+			if err := w.StoreLogs([]*raft.Log{l}); err != nil {
+				emit("codecid", "custom-store", false, err.Error())
+				return
 			}
 			w.Close()
-		}
-		// a different codec ID must be refused
-		w, err = wal.Open(dir, wal.WithCodec(custom{id: wal.FirstExternalCodecID + 99}), wal.WithSegmentSize(4096), wal.WithLogger(lg))
-		if err == nil {
-			emit("codecid", "other-codec-refused", false, "a directory written with codec A opened with codec B")
-			w.Close()
-		} else {
-			emit("codecid", "other-codec-refused", true, "")
-		}
-		w, err = wal.Open(dir, wal.WithSegmentSize(4096), wal.WithLogger(lg))
-		if err == nil {
-			emit("codecid", "default-codec-refused", false, "a directory written with a custom codec opened with the default codec")
-			w.Close()
-		} else {
-			emit("codecid", "default-codec-refused", true, "")
-		}
-	}()
+			w, err = wal.Open(dir, wal.WithCodec(cc), wal.WithSegmentSize(4096), wal.WithLogger(lg))
+			if err != nil {
+				emit("codecid", "custom-reopen", false, "a WAL created with a custom codec does not reopen with it: "+err.Error())
+			} else {
+				var got raft.Log
+				if err := w.GetLog(1, &got); err != nil {
+					emit("codecid", "custom-reopen", false, "GetLog after reopen: "+err.Error())
+				} else if d := equalLog(l, &got); d != "" {
+					emit("codecid", "custom-reopen", false, d)
+				} else {
+					emit("codecid", "custom-reopen", true, "")
+				}
+				w.Close()
+			}
+			// a different codec ID must be refused
+			w, err = wal.Open(dir, wal.WithCodec(custom{id: cid ^ 0x40}), wal.WithSegmentSize(4096), wal.WithLogger(lg))
+			if err == nil {
+				emit("codecid", "other-codec-refused", false, "a directory written with codec A opened with codec B")
+				w.Close()
+			} else {
+				emit("codecid", "other-codec-refused", true, "")
+			}
+			w, err = wal.Open(dir, wal.WithSegmentSize(4096), wal.WithLogger(lg))
+			if err == nil {
+				emit("codecid", "default-codec-refused", false, "a directory written with a custom codec opened with the default codec")
+				w.Close()
+			} else {
+				emit("codecid", "default-codec-refused", true, "")
+			}
+		}()
+	}
 	for _, rid := range []uint64{0, 1, wal.FirstExternalCodecID - 1} {
 		func() {
 			id := fmt.Sprintf("reserved-%d", rid)
